@@ -108,9 +108,14 @@ def check_case(ctx, case):
 
     def annotators_arg():
         a = case["annotators"]
-        if not isinstance(a, list):
-            return a
         kind = case.get("annotators_as", "list")
+        if not isinstance(a, list):
+            # a number of annotators: a plain int, or the numpy integer an array / a data frame hands out
+            return {"np.int64": np.int64, "np.int32": np.int32}.get(kind, int)(a)
+        if kind == "iter":
+            return iter(list(a))
+        if kind == "map":
+            return map(str, a)
         if kind == "generator":
             return (x for x in a)            # any iterable is accepted by the signature
         if kind == "tuple":
@@ -120,7 +125,12 @@ def check_case(ctx, case):
     def fresh():
         return cst.corpus_from_reference(annotators_arg())
 
-    base = units_by_annotator(fresh())
+    try:
+        base = units_by_annotator(fresh())
+    except Exception as e:
+        ctx.count("M-CORPUS")
+        ctx.fail_exc(f"corpus_from_reference-raises:{type(e).__name__}", e, monitor="M-CORPUS")
+        return
     ctx.count("M-CORPUS")
     if sorted(base.keys()) != sorted(names) or any(us != ref_units for us in base.values()):
         ctx.fail("corpus_from_reference-is-not-a-copy-of-the-reference", {"got": {a: us[:4] for a, us in base.items()}}, monitor="M-CORPUS")
@@ -295,7 +305,8 @@ def gen_case(ctx):
     return {"reference": cspec, "magnitude": m, "annotators": annotators, "extra_categories": extra,
             "include_ref": rng.random() < 0.5, "np_seed": rng.randrange(2 ** 31),
             "then_magnitude": rng.choice([None, 0.0, 0.0, rng.random()]),
-            "annotators_as": rng.choice(["list", "list", "tuple", "generator"]),
+            "annotators_as": rng.choice(["list", "list", "tuple", "generator", "iter", "map"] if isinstance(annotators, list)
+                                        else ["int", "int", "np.int64", "np.int32"]),
             "magnitude_type": rng.choice(["float", "float", "float", "float64", "float32"])}
 
 
